@@ -45,12 +45,16 @@ def raw_config(sc):
     if sc["pms"] > 0:
         grad["perturbation_min_success"] = sc["pms"]
     rw = {"ones": [1.0] * R, "seq": [float(r) for r in range(1, R + 1)], "zeroend": [0.0 if r == R else 2.0 for r in range(1, R + 1)],
-          "allzero": [0.0] * R}[sc["rwp"]]
+          "allzero": [0.0] * R, "mixed": [3.0 if r == 1 else -1.0 for r in range(1, R + 1)]}[sc["rwp"]]
     real = {"weights": rw}
     if sc["rms"] >= 0:
         real["realization_min_success"] = sc["rms"]
     cfg = {"variables": var, "gradient": grad, "realizations": real,
-           "objectives": {"weights": {"one": [1.0], "pair": [1.0, 3.0], "zero": [0.0, 0.0]}[sc["owp"]]}}
+           "objectives": {"weights": {"one": [1.0], "pair": [1.0, 3.0], "zero": [0.0, 0.0], "mixed": [3.0, -1.0]}[sc["owp"]]}}
+    if V >= 2 and sc["magn"] != "badlen" and sc["mask"] != "badlen":
+        # an explicit sampler assignment (an optional array that must be frozen like every other one)
+        cfg["samplers"] = [{"method": "norm"}, {"method": "uniform"}]
+        cfg["gradient"]["samplers"] = [v % 2 for v in range(V)]
     if sc["lin"] == "ok":
         cfg["linear_constraints"] = {"coefficients": [[1.0] * V, [1.0] + [-1.0] * (V - 1)], "lower_bounds": -1.0, "upper_bounds": [2.0, 3.0]}
     elif sc["lin"] == "badcols":
